@@ -153,7 +153,8 @@ Example C06_example_single :
   = OutGlyphs [(5, 0, 0); (2, 1, 0); (7, 2, 0); (5, 3, 0)].
 Proof. vm_compute. reflexivity. Qed.
 
-(* multiple substitution 1 -> 4 5 6, 2 -> (deleted): flat_map; the deleted glyph's cluster 1 merges backward *)
+(* multiple substitution 1 -> 4 5 6, 2 -> (deleted): flat_map; the deleted glyph's cluster 1 disappears (nothing to merge:
+   the previous cluster 0 is smaller) *)
 Example C06_example_multiple :
   shape_model (ex_font [mkLookup 0 None [SMultiple (CovGlyphs [1; 2]) [[4; 5; 6]; []]]] [(T_ccmp, [0])])
               (ex_req [(57344, 0); (57345, 1); (57346, 2)] 0)
